@@ -267,12 +267,13 @@ def rtLine (hints : List HashHint) (rest : List String) : List HashHint × Strin
   | some m =>
     -- a well-formed message must round-trip to `norm m` (the statement of C11.roundtrip);
     -- anything else: whatever decode . encode gives
-    if wf hash m then (hints, "ok " ++ nf (norm m))
+    -- (the `#` line is a comment for humans: how often the theorem's hypothesis held)
+    if wf hash m then (hints, "#wf 1\nok " ++ nf (norm m))
     else match encodeMsg m with
       | some bs => (match decodeMsg hash bs with
-        | some m' => (hints, "ok " ++ nf m')
-        | none => (hints, "err"))
-      | none => (hints, "err")
+        | some m' => (hints, "#wf 0\nok " ++ nf m')
+        | none => (hints, "#wf 0\nerr"))
+      | none => (hints, "#wf 0\nerr")
   | none => (hints, "bad-op")
 
 def stepLine (hints : List HashHint) (t : Toks) : List HashHint × String :=
